@@ -550,14 +550,11 @@ public:
 			}
 			else if constexpr (std::is_integral_v<T>)
 			{
-				if constexpr (std::is_same_v<T, int64_t>) {
+				if constexpr (std::is_signed_v<T>) {
 					mRootJson.SetInt64(value);
 				}
-				else if constexpr (std::is_same_v<T, uint64_t>) {
-					mRootJson.SetUint64(value);
-				}
 				else {
-					mRootJson.SetInt(value);
+					mRootJson.SetUint64(value);
 				}
 			}
 			else if constexpr (std::is_floating_point_v<T>) {
